@@ -216,6 +216,22 @@ def run(ctx: core.Ctx):
         if [tuple(r) for r in brows[1:]] != [tuple(c) for c in coords]:
             ctx.finding("borefield-rows", f"BoreFieldData rows of call {call_no} differ from the selected coordinates", {"call_sequence": order[: call_no + 1], "coords": coords, "rows": brows[1:]})
 
+    # the loads-table builder against the model's `loadingRows` (arbitrary lengths: empty, one hour, across month ends)
+    lens = [0, 1, 2, 24, 25, 743, 744, 745, 1417, 800] + [rng.randrange(0, 120) for _ in range(20 if ctx.tier == "quick" else 120)]
+    lists = [[float(rng.randrange(-50000, 50000)) / rng.choice([1, 4, 8]) for _ in range(n)] for n in lens]
+    out = ctx.driver(["loadrows " + " ".join(core.rs(q) for q in qs) for qs in lists])
+    for qs, o in zip(lists, out or []):
+        dsn = types.SimpleNamespace(ghe=types.SimpleNamespace(hourly_extraction_ground_loads=list(qs), hybrid_load=types.SimpleNamespace(years=[2019])))
+        rows = OutputManager.__new__(OutputManager).get_hourly_loading_data(dsn)[1:]
+        ctx.case(("loadrows", len(qs), hash(tuple(qs))), True)
+        model = [t.split() for t in o.split(" ; ")] if o.strip() else []
+        same = len(model) == len(rows) and all([int(a) for a in mr[:4]] == [int(r[0]), int(r[1]), int(r[2]), int(r[3])] and float(core.pr(mr[4])) == float(r[4]) for mr, r in zip(model, rows))
+        if not same:
+            ctx.disagreements_checked += 1
+            if "loads-table-correspondence" not in ctx.broken:
+                ctx.broken.append("loads-table-correspondence")
+                ctx.extra["loads_table_first_disagreement"] = {"n": len(qs), "impl_rows": len(rows), "model_rows": len(model), "impl_first": rows[:2], "model_first": model[:2]}
+    ctx.count("loads_table_lists", len(lists))
     # g-function table on a real GHE: strictly increasing time, same rows as the curve used by simulate
     n_ghe = 1 if ctx.tier == "quick" else 6
     for j in range(n_ghe):
